@@ -179,8 +179,8 @@ CLAIMED = {
              'is justified (with C13: reference ∩ has-scheme = full, and C04: mutators preserve validity); ordering: on every CFG path all calls that change which of scheme/authority is present precede every write of the path (the disambiguating shield is decided in the final context); '
              'RFC 3986 5.2.2 case analysis: every CFG path is walked with a path-sensitive evaluation of its guards, the treatment of the path (keep the base path / normalise the own path / merge) is read off its calls, and the language of reference paths '
              'reaching each treatment is compared by automata equality with the RFC table (keep iff path = "", own iff it starts with "/", merge otherwise; own when the reference has a scheme or authority); merge sub-rule (RFC 3986 5.2.3) on every merging CFG path, with terms restricted to the definitions of that path: the merge buffer starts from "/" only where the base is established to have an authority AND an empty path, from parent_or_empty() of the base path only where that case is excluded; exactly the segments() of the reference path are appended to THAT buffer with symbolic_append — whose dispatch ("." nothing, ".." pop, other push) and loop / tail rule are run here as under C10 — and its path becomes the result path; the base is only read; URI and IRI twins agree. Ambiguity clause: every non-merge branch ends with path_mut().normalize(), and the marked-language closure of that in-place rewrite (Engine D3, the rule of C09) is run here over the two reference owners — in every context (scheme / authority present or not) the rewritten path is read back as the path and as nothing else.',
-        design_ref='DESIGN.md §4 C06, §10.9, §10.15, §10.24',
-        note='NOT decided: that the text written on each path equals the RFC 3986 §5.2.2 result (merge + remove_dot_segments over run-time segment lists), nor idempotence; those quantify over run-time values.',
+        design_ref='DESIGN.md §4 C06, §10.9, §10.15, §10.24, §10.26',
+        note='Query clause of RFC 3986 5.2.2 (decided, §10.26): on every CFG path of resolve, set_query on the reference is given the query of the base only, exactly on the paths that copy the base path and on which Option::is_none/is_some established that the reference has no query; any other test of the reference\'s query is reported (fail closed). NOT decided: that the text written on each path equals the RFC 3986 §5.2.2 result (merge + remove_dot_segments over run-time segment lists), nor idempotence; those quantify over run-time values.',
         technique='instance-graph reachability + CFG path enumeration (typestate) + sibling agreement (static analysis)',
         engine='C',
     ),
@@ -229,7 +229,7 @@ CLAIMED = {
         text='The property is regular and is decided exactly by automata inclusion for all values: for each of the 10 percent-decodable component types '
              '(17 PctStr/PctString::new_unchecked sites found in MIR) L(T) ⊆ TRIPLETS, ⊆ TOTAL (utf8-decode accepts the decoded octets: no panic in '
              'chars/len/decode/eq/cmp/hash) and L(T)∩TOTAL ⊆ STRICT (no ill-formed/overlong sequence is given a text); plus discharge of every panic entry reachable '
-             'from the components\' eq/cmp/hash in the instance graph; own-text view rule: each of the 18 functions of one argument that yield a PctStr / PctString yields, on every path, the wrapped text of that argument (directly or through another such function). On the pinned tree TOTAL and FAITHFUL FAIL for all 10 types (genuine defect F7, '
+             'from the components\' eq/cmp/hash in the instance graph; own-text view rule: each of the 18 functions of one argument that yield a PctStr / PctString yields, on every path, the wrapped text of that argument (directly or through another such function) and takes no mutable borrow on the way (a write through &mut is invisible to the term of the result; §10.26). On the pinned tree TOTAL and FAITHFUL FAIL for all 10 types (genuine defect F7, '
              'witnesses %80 and %C0%80): recorded as known findings, so the level is "other" rather than "proof".',
         design_ref='DESIGN.md §4 C19, §1.1 F7, §8',
         note='Trusted: hand models of pct-str 2.0.0 / utf8-decode 1.0.1 (iv/pct.py), DFA_T (C01). Decoding to "exactly the component\'s bytes with %XX replaced" is the model\'s definition, not re-derived from pct-str\'s MIR.',
